@@ -15,10 +15,13 @@
   layer detects exactly the defect that was repaired: the previous tagged-integer getter, mirrored
   the same way, provably changes the packet.
 
-  Helper lemmas live in RV/Proofs/Prov.lean.
+  Helper lemmas live in RV/Proofs/Prov.lean; the value-level agreement of the `encrypt=`, vendor and
+  concat mirrors with the total models (§5b: `lookup_agrees_all`, `repeat_lookup_same_all`) in
+  RV/Proofs/ProvView.lean.
 -/
 import RV.Model.Prov
 import RV.Proofs.Prov
+import RV.Proofs.ProvView
 namespace RV.C13
 open RV RV.Prov
 
@@ -180,6 +183,74 @@ theorem repeat_lookup_same (H : Hash) (d : Desc) (henc : d.encrypt = 0) (hv : d.
     r₂.1.view r₂.2 = r₁.1.view r₁.2 :=
   hLookupH_repeat H d henc hv hc p auth h hp
 
+/-! ### 5b. value-level agreement for EVERY descriptor: `encrypt=1`, `encrypt=2`, vendor, concat
+
+    The mirrors of `radius.UserPassword` (`dec = hash.Sum(dec)` appended in place, `dec[i+j] ^= b`
+    stored in place, result `dec[:n]`), of `radius.TunnelPassword` (salt copy, plaintext buffer
+    written in place, result `plaintext[1:1+n]`), of `_GetsVendor` / `_LookupVendor` (sub-slices of
+    `radius.VendorSpecific`'s copy) and of the concat `X_Lookup` (`value = append(value, i...)`) compute,
+    in buffers they allocate, exactly the bytes of the total models.  `hH`: the hash has 16-octet
+    digests (MD5).  `hp`: the packet's slices point into existing buffers. -/
+
+/-- the typed password decoders, read through the slice they return -/
+theorem password_decoders_agree (H : Hash) (hH : ∀ x, (H x).length = 16) (a secret : Slice) (auth : Bytes) (h : Heap) :
+    viewRes (userPasswordH H a secret auth h).2 (userPasswordH H a secret auth h).1 =
+      userPassword H (h.read a) (h.read secret) auth ∧
+    viewRes (tpPlainH H a secret auth h).2 (tpPlainH H a secret auth h).1 =
+      tpPlain H (h.read a) (h.read secret) auth :=
+  ⟨userPasswordH_view H hH a secret auth h, tpPlainH_view H hH a secret auth h⟩
+
+/-- the body of every generated getter, every `encrypt=` -/
+theorem decodeValue_agrees_all (H : Hash) (hH : ∀ x, (H x).length = 16) (d : Desc) (a secret : Slice)
+    (auth : Bytes) (h : Heap) :
+    viewDec (decodeValueH H d a secret auth h).2 (decodeValueH H d a secret auth h).1 =
+      decodeValue H d (h.read a) (h.read secret) auth :=
+  decodeValueH_view_all H hH d a secret auth h
+
+/-- `_GetsVendor` / `_LookupVendor`: the returned slices, read after the call, are the model's values -/
+theorem vendor_walkers_agree (vid : Nat) (typ : UInt8) (p : HPacket) (h : Heap) (hp : p.below h.length) :
+    (getsVendorH vid typ p.attrs h).1.map (getsVendorH vid typ p.attrs h).2.read =
+      getsVendor vid typ (p.view h).attrs ∧
+    ((lookupVendorH vid typ p.attrs h).1).map (lookupVendorH vid typ p.attrs h).2.read =
+      lookupVendor vid typ (p.view h).attrs := by
+  obtain ⟨ext, he, hm, _⟩ := getsVendorH_view vid typ p.attrs h hp.2
+  have h1 : (getsVendorH vid typ p.attrs h).1.map (getsVendorH vid typ p.attrs h).2.read =
+      getsVendor vid typ (p.view h).attrs := by rw [he, hm]; rfl
+  refine ⟨h1, ?_⟩
+  unfold lookupVendor
+  rw [← h1]
+  show ((getsVendorH vid typ p.attrs h).1.head?).map (getsVendorH vid typ p.attrs h).2.read = _
+  rw [List.head?_map]
+
+/-- `X_Lookup` of EVERY attribute descriptor — vendor or not, `encrypt` 0 / 1 / 2, concat included:
+    what the caller reads through the returned slices is the total model's answer -/
+theorem lookup_agrees_all (H : Hash) (hH : ∀ x, (H x).length = 16) (d : Desc) (p : HPacket) (auth : Bytes)
+    (h : Heap) (hp : p.below h.length) :
+    (hLookupH H d p auth h).1.view (hLookupH H d p auth h).2 =
+      hLookup H d (p.view h).attrs (h.read p.secret) auth :=
+  hLookupH_view_all H hH d p auth h hp
+
+/-- … hence two `X_Lookup` calls in a row show the caller the same value, for every descriptor -/
+theorem repeat_lookup_same_all (H : Hash) (hH : ∀ x, (H x).length = 16) (d : Desc) (p : HPacket) (auth : Bytes)
+    (h : Heap) (hp : p.below h.length) :
+    let r₁ := hLookupH H d p auth h
+    let r₂ := hLookupH H d p auth r₁.2
+    r₂.1.view r₂.2 = r₁.1.view r₁.2 :=
+  hLookupH_repeat_all H hH d p auth h hp
+
+/-- … and the second answer is still the model's answer on the ORIGINAL packet -/
+theorem repeat_lookup_is_model (H : Hash) (hH : ∀ x, (H x).length = 16) (d : Desc) (p : HPacket) (auth : Bytes)
+    (h : Heap) (hp : p.below h.length) :
+    let r₁ := hLookupH H d p auth h
+    let r₂ := hLookupH H d p auth r₁.2
+    r₂.1.view r₂.2 = hLookup H d (p.view h).attrs (h.read p.secret) auth := by
+  intro r₁ r₂
+  have := hLookupH_repeat_all H hH d p auth h hp
+  simp only [] at this
+  show (hLookupH H d p auth (hLookupH H d p auth h).2).1.view (hLookupH H d p auth (hLookupH H d p auth h).2).2 = _
+  rw [this]
+  exact hLookupH_view_all H hH d p auth h hp
+
 /-! ### History: the defect that was repaired is visible in this layer -/
 
 /-- The PREVIOUS tagged-integer getter (`a[0] = 0x00` stored through the slice `p.Lookup` returned):
@@ -207,5 +278,49 @@ example : (taggedIntLookupH 64 4 histPacket (taggedIntLookupH 64 4 histPacket hi
 /-- list `Get` / `Lookup` returns a view of the packet; that is allowed, and the model shows it -/
 example : lookupRaw histPacket.attrs 64 = some ⟨1, 0, 4⟩ ∧
     histPacket.view (histHeap.write ⟨1, 0, 4⟩ 3 9) ≠ histPacket.view histHeap := raw_lookup_is_view
+
+/-! ### Non-vacuity of 5b: concrete heaps -/
+
+/-- toy hash with 16-octet digests -/
+def zh : Hash := fun _ => zeros 16
+theorem zh_len : ∀ x, (zh x).length = 16 := fun _ => by simp [zh, zeros]
+
+/-- buffer 0: the secret; buffer 1: a Vendor-Specific attribute of vendor 9 with sub-attributes
+    (1, AA BB) and (2, CC); buffer 2: a User-Password style attribute (type 2) holding "ab" under `zh`;
+    buffers 3, 4: two chunks of a concat attribute (type 79) -/
+def exHeap : Heap :=
+  [[0x73], [0, 0, 0, 9, 1, 4, 0xAA, 0xBB, 2, 3, 0xCC], [0x61, 0x62, 0, 0, 0, 0, 0, 0, 0, 0, 0, 0, 0, 0, 0, 0],
+   [1, 2], [3]]
+def exPacket : HPacket :=
+  ⟨1, 7, zeros 16, ⟨0, 0, 1⟩, [(26, ⟨1, 0, 11⟩), (2, ⟨2, 0, 16⟩), (79, ⟨3, 0, 2⟩), (79, ⟨4, 0, 1⟩)]⟩
+
+theorem exPacket_below : exPacket.below exHeap.length := by
+  refine ⟨by decide, ?_⟩
+  intro ts hts
+  simp only [exPacket, List.mem_cons, List.not_mem_nil, or_false] at hts
+  rcases hts with rfl | rfl | rfl | rfl <;> decide
+
+/-- a vendor attribute: the value is read out of `radius.VendorSpecific`'s copy -/
+example : (hLookupH zh ⟨26, 9, 1, .octets, false, 0, none⟩ exPacket (zeros 16) exHeap).1.view
+    (hLookupH zh ⟨26, 9, 1, .octets, false, 0, none⟩ exPacket (zeros 16) exHeap).2 =
+    .val 0 (.bytes [0xAA, 0xBB]) := by
+  rw [lookup_agrees_all zh zh_len _ _ _ _ exPacket_below]; decide +kernel
+
+/-- an `encrypt=1` attribute: decrypted in a buffer of its own -/
+example : (hLookupH zh ⟨2, 0, 0, .string, false, 1, none⟩ exPacket (zeros 16) exHeap).1.view
+    (hLookupH zh ⟨2, 0, 0, .string, false, 1, none⟩ exPacket (zeros 16) exHeap).2 =
+    .val 0 (.bytes [0x61, 0x62]) := by
+  rw [lookup_agrees_all zh zh_len _ _ _ _ exPacket_below]; decide +kernel
+
+/-- a concat attribute: all occurrences appended into a new buffer; the packet's buffers are as
+    before, and storing through the result does not reach them -/
+example : (hLookupH zh ⟨79, 0, 0, .concat, false, 0, none⟩ exPacket (zeros 16) exHeap).1.view
+    (hLookupH zh ⟨79, 0, 0, .concat, false, 0, none⟩ exPacket (zeros 16) exHeap).2 =
+    .val 0 (.bytes [1, 2, 3]) := by
+  rw [lookup_agrees_all zh zh_len _ _ _ _ exPacket_below]; decide +kernel
+example : (hLookupH zh ⟨79, 0, 0, .concat, false, 0, none⟩ exPacket (zeros 16) exHeap).2 =
+    exHeap ++ [[1, 2, 3], [1, 2], [3]] := by decide +kernel
+example : slices (hLookupH zh ⟨79, 0, 0, .concat, false, 0, none⟩ exPacket (zeros 16) exHeap).1 = [⟨5, 0, 3⟩] := by
+  decide +kernel
 
 end RV.C13
